@@ -111,7 +111,11 @@ pub fn expr_to_source(spanned_expr: &SpannedExpr) -> String {
         }
         Expr::Lambda { args, body } => {
             let args_str: Vec<String> = args.iter().map(lambda_arg_to_source).collect();
-            format!("({}) => {}", args_str.join(", "), expr_to_source(body))
+            format!(
+                "({}) => {}",
+                args_str.join(", "),
+                wrap_if(lambda_body_needs_parens(body), expr_to_source(body))
+            )
         }
         Expr::Conditional {
             condition,
@@ -356,6 +360,23 @@ pub fn needs_parens_in_postfix(child_expr: &SpannedExpr) -> bool {
     }
 }
 
+/// Check if a lambda body needs parentheses: via / into / where are not admitted at the top
+/// level of a lambda body, and an and / or chain is printed flat (`a via f and b`)
+pub fn lambda_body_needs_parens(body: &SpannedExpr) -> bool {
+    match &body.node {
+        Expr::BinaryOp {
+            op: BinaryOp::Via | BinaryOp::Into | BinaryOp::Where,
+            ..
+        } => true,
+        Expr::BinaryOp {
+            op: BinaryOp::And | BinaryOp::NaturalAnd | BinaryOp::Or | BinaryOp::NaturalOr,
+            left,
+            ..
+        } => lambda_body_needs_parens(left),
+        _ => false,
+    }
+}
+
 fn wrap_if(needs_parens: bool, source: String) -> String {
     if needs_parens {
         format!("({})", source)
@@ -430,7 +451,10 @@ pub fn expr_to_source_with_scope(
             format!(
                 "({}) => {}",
                 args_str.join(", "),
-                expr_to_source_with_scope(body, &filtered_scope)
+                wrap_if(
+                    lambda_body_needs_parens(body),
+                    expr_to_source_with_scope(body, &filtered_scope)
+                )
             )
         }
         Expr::Conditional {
